@@ -118,6 +118,13 @@ template <class F> void dotted_family(Ctx &ctx, F visit) {
         for (int code = 0; code < total; code++) { if (!ctx.mine(idx++) || ctx.expired()) continue; Str h; int c = code; for (int i = 0; i < k; i++) { if (i) h += "."; h += oc[c & 3]; c >>= 2; }
             for (auto tail : { "", "." }) { Str t = h + tail; visit("//" + t); visit("//u@" + t); visit("//" + t + ":1"); visit("//" + t + "/"); visit("s://u@" + t + "?q"); } } }
 }
+// user information that reads like an IPv4 address or like "host:port" until a later character decides otherwise, in front of every host kind:
+// whatever the parser built for the first reading has to be taken back (no stale port range, no address block left behind)
+template <class F> void userinfo_ip_family(Ctx &ctx, F visit) {
+    uint64_t idx = 0;
+    for (auto ui : { "1.2.3.4", "1.2.3.4:", "1.2.3.4:21", "1.2.3.4:%41", "1.2.3.4:21%41", "1.2.3.4:x", "u:12%34", ":%41", "u:1", "1.2.3.4:21:", "255.255.255.255:0%30" })
+        for (auto h : { "h", "5.6.7.8", "[::1]", "[v1.a]", "", "1.2.3" }) for (auto tail : { "", ":8", "/p", ":", "?q" }) { if (!ctx.mine(idx++) || ctx.expired()) continue; visit(Str("//") + ui + "@" + h + tail); visit(Str("s://") + ui + "@" + h + tail); }
+}
 template <class F> void octet_product(Ctx &ctx, F visit) {
     static const char *oc[22] = { "0", "9", "10", "99", "100", "199", "200", "249", "250", "255", "256", "260", "300", "00", "01", "1a", "", "19", "20", "25", "26", "29" };
     uint64_t idx = 0;
